@@ -17,6 +17,7 @@ import (
 	"github.com/voedger/voedger/pkg/iblobstoragestg"
 	"github.com/voedger/voedger/pkg/istorage"
 	"github.com/voedger/voedger/pkg/istructs"
+	blobprocessor "github.com/voedger/voedger/pkg/processors/blobber"
 )
 
 const chunkSize = 102400 // only used to pick interesting sizes; the model takes the real constant from Params.v
@@ -55,6 +56,8 @@ type writeSpec struct {
 	Chunking string  `json:"chunking"`
 	Reads    []int   `json:"reads"`  // sizes the reader returns, in order
 	Ending   string  `json:"ending"` // eof | err | cancel
+	ErrKind  string  `json:"err_kind,omitempty"` // what an "err" ending returns: "" = a private error | ueof = io.ErrUnexpectedEOF (a request body cut short)
+	Via      string  `json:"via,omitempty"`      // "" = IBLOBStorage directly | blobber = through the write step of the BLOB processor
 	// the last Read result comes together with the ending (n > 0 and io.EOF / the error / the cancel),
 	// as io.Reader allows; after an error delivered this way the reader answers (0, io.EOF)
 	EndWithData bool `json:"ending_with_data,omitempty"`
@@ -96,6 +99,7 @@ type scriptedReader struct {
 	i        int
 	pos      int
 	ending   string
+	errKind  string
 	withData bool
 	ended    bool
 	cancel   context.CancelFunc
@@ -105,6 +109,13 @@ type scriptedReader struct {
 var errReader = errors.New("scripted reader failure")
 var errCrashed = errors.New("the process is gone")
 
+func (r *scriptedReader) readErr() error {
+	if r.errKind == "ueof" {
+		return io.ErrUnexpectedEOF
+	}
+	return errReader
+}
+
 func (r *scriptedReader) Read(p []byte) (int, error) {
 	if r.ended {
 		return 0, io.EOF
@@ -112,7 +123,7 @@ func (r *scriptedReader) Read(p []byte) (int, error) {
 	if r.i >= len(r.reads) {
 		switch r.ending {
 		case "err":
-			return 0, errReader
+			return 0, r.readErr()
 		case "cancel":
 			r.cancel()
 			return 0, nil
@@ -131,7 +142,7 @@ func (r *scriptedReader) Read(p []byte) (int, error) {
 		r.ended = true
 		switch r.ending {
 		case "err":
-			return n, errReader
+			return n, r.readErr()
 		case "cancel":
 			r.cancel()
 			return n, nil
@@ -253,7 +264,7 @@ func run(sc *scenario) (coq string, tags []string, err error) {
 			}
 			data := content(w.Seed, w.Size)
 			ctx, cancel := context.WithCancel(context.Background())
-			rd := &scriptedReader{data: data, reads: w.Reads, ending: w.Ending, withData: w.EndWithData, cancel: cancel}
+			rd := &scriptedReader{data: data, reads: w.Reads, ending: w.Ending, errKind: w.ErrKind, withData: w.EndWithData, cancel: cancel}
 			var lim iblobstorage.WLimiterType = func(uint64) error { return nil }
 			if w.Quota >= 0 {
 				lim = iblobstoragestg.NewWLimiter_Size(iblobstorage.BLOBMaxSizeType(w.Quota))
@@ -262,7 +273,12 @@ func run(sc *scenario) (coq string, tags []string, err error) {
 			crashAfter, writeCalls = w.CrashAfter, 0
 			var size uint64
 			var werr error
-			if w.Key.Persistent {
+			if w.Via == "blobber" {
+				// the write step of the BLOB processor: what an upload goes through above IBLOBStorage
+				size, werr = blobprocessor.VerifWriteBLOB(ctx, bs, func() iblobstorage.WLimiterType { return lim }, w.Key.key(),
+					descrOf(w.Descr), io.NopCloser(rd), iblobstorage.DurationType(w.Dur))
+				tagset["via:blobber"] = true
+			} else if w.Key.Persistent {
 				size, werr = bs.WriteBLOB(ctx, *(w.Key.key().(*iblobstorage.PersistentBLOBKeyType)), descrOf(w.Descr), rd, lim)
 			} else {
 				size, werr = bs.WriteTempBLOB(ctx, *(w.Key.key().(*iblobstorage.TempBLOBKeyType)), descrOf(w.Descr), rd, lim, iblobstorage.DurationType(w.Dur))
@@ -288,9 +304,9 @@ func run(sc *scenario) (coq string, tags []string, err error) {
 			code := 0
 			switch {
 			case werr == nil:
-			case errors.Is(werr, iblobstorage.ErrBLOBSizeQuotaExceeded):
-				code = 1
-			case errors.Is(werr, errReader):
+			case errors.Is(werr, iblobstorage.ErrBLOBSizeQuotaExceeded), strings.Contains(werr.Error(), iblobstorage.ErrBLOBSizeQuotaExceeded.Error()):
+				code = 1 // the BLOB processor answers it as an HTTP 413 carrying the text
+			case errors.Is(werr, errReader), w.Ending == "err" && errors.Is(werr, io.ErrUnexpectedEOF):
 				code = 3
 			case errors.Is(werr, context.Canceled):
 				code = 4
